@@ -55,11 +55,9 @@ impl<const P: u128> ops::Sub<FiniteField<P>> for FiniteField<P> {
     type Output = FiniteField<P>;
 
     fn sub(self, rhs: FiniteField<P>) -> Self::Output {
-        FiniteField::new(if self.v > rhs.v {
-            self.v - rhs.v
-        } else {
-            rhs.v - self.v
-        })
+        // both operands are reduced, so this cannot underflow; P - rhs.v is the
+        // additive inverse of rhs.v
+        FiniteField::new((self.v + (P - rhs.v)) % P)
     }
 }
 
